@@ -66,14 +66,14 @@ theorem gen_vec_extend_from_slice_copy_unchecked (c : Cfg) (src : List (Option E
 
 /-- `append_elements(other)`: reserve `count`, copy `count` slots behind `len`, `len += count` — the first and the last step of the
 model's `append` (which then empties the other vector) -/
-theorem gen_vec_append_elements (c : Cfg) (other : List (Option Elem)) (v : VS) (w : W) (hc : CfgOK c) (hb : BufOK c v)
+theorem gen_vec_append_elements_raw (c : Cfg) (other : List (Option Elem)) (v : VS) (w : W) (hc : CfgOK c) (hb : BufOK c v)
     (hl : v.len ≤ capOf c v) :
-    toModel (Gen.Fn.vec_append_elements c other (v, w)) =
-      match rawReserve c v v.len other.length with
+    Gen.Fn.vec_append_elements c other (v, w) =
+      ofModel (match rawReserve c v v.len other.length with
       | none => (v, w, none)
       | some a1 =>
         let r := a1.copyFrom c other a1.len w
-        ({ r.1 with len := r.1.len + other.length }, r.2, some ()) := by
+        ({ r.1 with len := r.1.len + other.length }, r.2, some ())) := by
   unfold Gen.Fn.vec_append_elements
   simp only []
   rw [gen_vec_reserve]
@@ -88,6 +88,16 @@ theorem gen_vec_append_elements (c : Cfg) (other : List (Option Elem)) (v : VS) 
     have h1 : (v1.copyFrom c other v1.len w).1.len + other.length < USIZE := by rw [hkeep]; omega
     simp only [h1, if_true]
     rfl
+
+theorem gen_vec_append_elements (c : Cfg) (other : List (Option Elem)) (v : VS) (w : W) (hc : CfgOK c) (hb : BufOK c v)
+    (hl : v.len ≤ capOf c v) :
+    toModel (Gen.Fn.vec_append_elements c other (v, w)) =
+      match rawReserve c v v.len other.length with
+      | none => (v, w, none)
+      | some a1 =>
+        let r := a1.copyFrom c other a1.len w
+        ({ r.1 with len := r.1.len + other.length }, r.2, some ()) := by
+  rw [gen_vec_append_elements_raw c other v w hc hb hl, toModel_ofModel]
 
 /-- … so that `Vec::append(&mut other)` (`append_elements(other.as_slice())`, then `other.set_len(0)`) is the model's `append` -/
 theorem gen_vec_append (c : Cfg) (a b : VS) (w : W) (hc : CfgOK c) (hb : BufOK c a) (hl : a.len ≤ capOf c a)
@@ -271,6 +281,54 @@ theorem gen_vec_clone (c : Cfg) (hc : CfgOK c) (v : VS) (w : W) (hl : v.len < US
     rcases extend c n (It.cloned v.owned) w with ⟨v', w', o⟩
     cases o <;> simp [ofModel, bindU, builtView, drop_vec]
 
+/-! ## two vectors: `append(&mut other)`, `split_off(at)` (the second vector is a value next to the threaded one) -/
+
+/-- `Vec::append(&mut other)` itself: `append_elements(other.as_slice())`, then `other.set_len(0)` — the model's `append`; the value
+returned is the other vector as the call leaves it -/
+theorem gen_vec_append_whole (c : Cfg) (a b : VS) (w : W) (hc : CfgOK c) (hb : BufOK c a) (hl : a.len ≤ capOf c a)
+    (hbl : b.len ≤ b.slots.length) :
+    (match Gen.Fn.vec_append c b (a, w) with
+     | ((a', w'), .ok b') => (a', b', w', some ())
+     | ((a', w'), _) => (a', b, w', none)) = append c a b w := by
+  unfold Gen.Fn.vec_append
+  rw [gen_vec_append_elements_raw c _ a w hc hb hl]
+  unfold append
+  have hlen : (b.slots.take b.len).length = b.len := by simp [List.length_take]; omega
+  rw [hlen]
+  simp only []
+  cases hr : rawReserve c a a.len b.len with
+  | none => rfl
+  | some a1 => rfl
+
+/-- `Vec::split_off(at)`: the bounds assertion, a new vector with room for the tail, the receiver's length lowered, one copy — the
+model's `splitOff` -/
+theorem gen_vec_split_off (c : Cfg) (v : VS) (at_ : Nat) (w : W) :
+    (match Gen.Fn.vec_split_off c at_ (v, w) with
+     | ((v', w'), .ok o) => (v', some o, w')
+     | ((v', w'), .bad why) => (v', none, w'.flag why)
+     | ((v', w'), _) => (v', none, w')) = splitOff c v at_ w := by
+  unfold Gen.Fn.vec_split_off splitOff
+  simp only [gen_vec_len, pureW, bindW, gen_vec_with_capacity_in, gen_vec_set_len]
+  by_cases hat : at_ ≤ v.len
+  · have hn : ¬ at_ > v.len := by omega
+    simp only [hat, decide_true, if_true, hn, if_false]
+    cases hcap : withCapacity c (v.len - at_) with
+    | none => rfl
+    | some o =>
+      simp only [copy_out]
+      have hk := copyFrom_len c { o with len := v.len - at_ } ((v.slots.drop at_).take (v.len - at_)) 0 w
+      have hsame : ∀ (n : Nat), ({ o with len := n } : VS).copyFrom c ((v.slots.drop at_).take (v.len - at_)) 0 w =
+          ({ (o.copyFrom c ((v.slots.drop at_).take (v.len - at_)) 0 w).1 with len := n }, (o.copyFrom c ((v.slots.drop at_).take (v.len - at_)) 0 w).2) := by
+        intro n
+        unfold VS.copyFrom
+        split
+        · rfl
+        · simp only [VS.need]
+      rw [hsame]
+  · have hn : at_ > v.len := by omega
+    have hd : decide (at_ ≤ v.len) = false := by simpa using hat
+    simp [hd, hn]
+
 /-! ## one-line wrappers: `extend_from_slice`, `io::Write` -/
 
 /-- `extend_from_slice(other)` is `extend(other.iter().cloned())`: the model's `extend` over `It.cloned` -/
@@ -303,6 +361,8 @@ theorem gen_vec_io_flush (c : Cfg) (s : VW) : Gen.Fn.vec_io_flush c s = (s, .ok 
 
 #print axioms gen_vec_extend_from_slice_copy
 #print axioms gen_vec_extend_from_slice
+#print axioms gen_vec_append_whole
+#print axioms gen_vec_split_off
 #print axioms gen_vec_io_write
 #print axioms gen_vec_io_write_all
 #print axioms gen_vec_extend
